@@ -325,8 +325,10 @@ pub fn run(ctx: &Ctx) -> Outcome {
     if let Some(p) = &ctx.replay {
         return replay(p, out);
     }
-    let quick = ctx.quick();
-    let ms: Vec<usize> = if quick { vec![512, 600] } else { vec![512, 513, 600, 1024, 4096] };
+    // (the quick tier runs what used to be the thorough bound: it takes well under a second)
+    let deep = !ctx.quick();
+    let quick = false;
+    let ms: Vec<usize> = if deep { vec![512, 513, 514, 520, 600, 1024, 2048, 4096, 65536] } else { vec![512, 513, 600, 1024, 4096] };
     // ---------------- write side
     let mut cases: Vec<(Item, usize)> = vec![];
     for &m in &ms {
@@ -339,7 +341,7 @@ pub fn run(ctx: &Ctx) -> Outcome {
             }
         }
         let body = m - 8;
-        let mut lens: Vec<usize> = if m == 512 {
+        let mut lens: Vec<usize> = if m == 512 || (deep && m <= 1024) {
             (0..=3 * m + 16).collect()
         } else {
             let mut v = vec![0, 1];
